@@ -244,6 +244,30 @@ class Evaluator:
             if isinstance(base, Obj) and isinstance(e.ctx, ast.Load):
                 return BoundRef(base, e.attr)
             raise Unsupported(e, "unbound attribute")
+        if isinstance(e, ast.DictComp) and len(e.generators) == 1:
+            g = e.generators[0]
+            seq = self.ev(g.iter)
+            if isinstance(seq, dict):
+                seq = tuple(seq)
+            if not isinstance(seq, (tuple, range)):
+                raise Unsupported(e)
+            names = [g.target.id] if isinstance(g.target, ast.Name) else [x.id for x in g.target.elts] if isinstance(g.target, ast.Tuple) and all(isinstance(x, ast.Name) for x in g.target.elts) else None
+            if names is None:
+                raise Unsupported(e)
+            saved = {n: self.env[n] for n in names if n in self.env}
+            out_d = {}
+            for item in seq:
+                if isinstance(g.target, ast.Name):
+                    self.env[names[0]] = item
+                else:
+                    for n, v in zip(names, item):
+                        self.env[n] = v
+                if all(self.ev(c) for c in g.ifs):
+                    out_d[self.ev(e.key)] = self.ev(e.value)
+            for n in names:
+                self.env.pop(n, None)
+            self.env.update(saved)
+            return out_d
         if isinstance(e, ast.Lambda) and not (e.args.vararg or e.args.kwarg):
             fake = ast.FunctionDef(name="<lambda>", args=e.args, body=[ast.copy_location(ast.Return(value=e.body), e)], decorator_list=[], returns=None)
             ast.copy_location(fake, e)
@@ -253,6 +277,13 @@ class Evaluator:
                 return {self.ev(k): self.ev(v) for k, v in zip(e.keys, e.values)}
             except TypeError:
                 raise Unsupported(e)
+        if isinstance(e, ast.Call) and isinstance(e.func, ast.Attribute) and e.func.attr in ("keys", "values", "items") and not e.args and not e.keywords:
+            try:
+                dv = self.ev(e.func.value)
+            except Unsupported:
+                dv = None
+            if isinstance(dv, dict):
+                return tuple(getattr(dv, e.func.attr)())
         if isinstance(e, ast.Call) and isinstance(e.func, ast.Attribute) and e.func.attr == "get" and 1 <= len(e.args) <= 2 and not e.keywords:
             try:
                 dv = self.ev(e.func.value)
@@ -345,7 +376,7 @@ class Evaluator:
             if isinstance(b, View):
                 return len(b) if e.func.id == "len" else (bytes if e.func.id == "bytes" else bytearray)(b.tobytes())
         if isinstance(e, ast.Call) and isinstance(e.func, ast.Name) and e.func.id == "isinstance" and len(e.args) == 2 and not e.keywords:
-            tys = {"str": str, "bytes": bytes, "int": int, "bytearray": bytearray, "bool": bool, "list": tuple, "tuple": tuple}
+            tys = {"str": str, "bytes": bytes, "int": int, "bytearray": bytearray, "bool": bool, "list": tuple, "tuple": tuple, "dict": dict}
             names = [e.args[1]] if isinstance(e.args[1], ast.Name) else list(e.args[1].elts) if isinstance(e.args[1], ast.Tuple) else None
             if names and all(isinstance(n, ast.Name) and n.id in tys for n in names):
                 v = self.ev(e.args[0])
@@ -472,6 +503,8 @@ class Evaluator:
                 isinstance(e.generators[0].target, ast.Tuple) and all(isinstance(x, ast.Name) for x in e.generators[0].target.elts))):
             g = e.generators[0]
             seq = self.ev(g.iter)
+            if isinstance(seq, dict):
+                seq = tuple(seq)
             if not isinstance(seq, (tuple, range, bytes)):
                 raise Unsupported(e)
             out = []
@@ -582,6 +615,24 @@ class Evaluator:
                 if self.opaque_return:
                     return Outcome("return", "<expr>", st)
                 raise
+        if isinstance(st, ast.Try) and not all(_always_raises(h.body) for h in st.handlers):
+            # recovery handlers: understood as long as nothing modelled raises inside the body (the models' leaves do not raise)
+            try:
+                for s2 in list(st.body) + list(st.orelse):
+                    o = self.step(s2)
+                    if o is not None:
+                        if o.kind == "raise":
+                            raise Unsupported(st, "a raise inside a try with recovery handlers")
+                        for s3 in st.finalbody:
+                            self.step(s3)
+                        return o
+            except ModelRaise:
+                raise Unsupported(st, "a modelled callee raised inside a try with recovery handlers")
+            for s3 in st.finalbody:
+                o = self.step(s3)
+                if o is not None:
+                    return o
+            return None
         if isinstance(st, ast.Try) and not st.finalbody and not st.orelse and all(_always_raises(h.body) for h in st.handlers):
             # exception-translation wrapper: the body decides
             for s in st.body:
@@ -630,6 +681,8 @@ class Evaluator:
             it = st.iter
             if isinstance(st.target, ast.Name) and not st.orelse and not (isinstance(it, ast.Call) and isinstance(it.func, ast.Name) and it.func.id == "range"):
                 seq = self.ev(it)
+                if isinstance(seq, dict):
+                    seq = tuple(seq)
                 if isinstance(seq, tuple):
                     return self._loop(st, seq)
                 raise Unsupported(st)
@@ -678,6 +731,14 @@ class Evaluator:
             if isinstance(tgt, ast.Attribute) and st.value is not None:
                 self._store(tgt, self.ev(st.value), st)
                 return None
+            if isinstance(tgt, ast.Subscript) and st.value is not None and not isinstance(tgt.slice, ast.Slice):
+                try:
+                    dbase = self.ev(tgt.value)
+                except Unsupported:
+                    dbase = None
+                if isinstance(dbase, dict):
+                    dbase[self.ev(tgt.slice)] = self.ev(st.value)
+                    return None
             if isinstance(tgt, ast.Subscript) and st.value is not None and isinstance(tgt.value, ast.Name) and isinstance(self.env.get(tgt.value.id), tuple) \
                     and not isinstance(tgt.slice, ast.Slice):
                 # item store on a local sequence (modelled as a tuple)
